@@ -29,7 +29,18 @@ namespace vb {
 
 int64_t clockNs = kEpochNs;
 std::vector<Effect> effects;
+std::vector<std::string> badFdUses;
 double killLatencySec = 0;
+// a call of the code under test that fails with EBADF used (or closed) a descriptor that is not open: always a defect
+template <class T>
+static T noteBadFd(const char* op, int fd, T ret) {
+  if (ret < 0 && errno == EBADF && fd != AT_FDCWD) {
+    int e = errno;
+    badFdUses.push_back(std::string(op) + "(fd=" + std::to_string(fd) + ") failed with EBADF");
+    errno = e;
+  }
+  return ret;
+}
 static void pushEffect(Effect e) {
   e.tNs = clockNs;
   effects.push_back(std::move(e));
@@ -60,6 +71,7 @@ std::string Effect::str() const {
 
 void advanceClock(double sec) { clockNs += (int64_t)(sec * 1e9); }
 void resetLog() {
+  badFdUses.clear();
   effects.clear();
   accessCount = 0;
 }
@@ -326,7 +338,7 @@ static int openat_common(int dirfd, const char* path, int flags, mode_t mode) {
     errno = e;
     return -1;
   }
-  return f(dirfd, path, flags, mode);
+  return noteBadFd("openat", dirfd, f(dirfd, path, flags, mode));
 }
 int openat(int dirfd, const char* path, int flags, ...) {
   mode_t mode = 0;
@@ -389,7 +401,7 @@ int faccessat(int dirfd, const char* path, int mode, int flags) {
     errno = e;
     return -1;
   }
-  return f(dirfd, path, mode, flags);
+  return path[0] == '/' ? f(dirfd, path, mode, flags) : noteBadFd("faccessat", dirfd, f(dirfd, path, mode, flags));
 }
 
 typedef int (*fstatat_t)(int, const char*, struct stat*, int);
@@ -401,7 +413,7 @@ int fstatat(int dirfd, const char* path, struct stat* st, int flags) {
     errno = e;
     return -1;
   }
-  return f(dirfd, path, st, flags);
+  return path[0] == '/' ? f(dirfd, path, st, flags) : noteBadFd("fstatat", dirfd, f(dirfd, path, st, flags));
 }
 typedef int (*fstatat64_t)(int, const char*, struct stat64*, int);
 int fstatat64(int dirfd, const char* path, struct stat64* st, int flags) {
@@ -480,7 +492,14 @@ ssize_t fgetxattr(int fd, const char* name, void* value, size_t size) {
     errno = e;
     return -1;
   }
-  return f(fd, name, value, size);
+  return noteBadFd("fgetxattr", fd, f(fd, name, value, size));
+}
+
+typedef int (*close_t)(int);
+int close(int fd) {
+  REAL(f, close_t, "close");
+  if (!active || bypassDepth) return f(fd);
+  return noteBadFd("close", fd, f(fd));
 }
 
 ssize_t write(int fd, const void* buf, size_t n) {
